@@ -207,7 +207,7 @@ def steer(rng, fmt, fields, level, kind, r, idx):
         if kind == "huge":
             return r | rng.choice([1, 2, 3])
         if kind == "hugepd":
-            psz = rng.choice(list(range(14)) + [8, 9, 10, 11, 14, 15])
+            psz = rng.choice(list(range(2, 14)) + [8, 9, 10, 11, 14, 15])   # page size >= base page (Linux)
             return (r & ~(1 << 63) & ~0x3f) | (psz << 2)
         if kind == "inv":
             return (r & ~(1 << 63) & ~0x3f) | (rng.choice([14, 15]) << 2)
@@ -326,6 +326,13 @@ def gen_pgt(rng, quick_variants=True):
             r &= (1 << rng.choice([32, 36, 44, 48, 50, 52, 56, 64])) - 1
         e = steer(rng, fmt, fields, level, kind, r, idx) & ((1 << width) - 1)
         e &= ~mask
+        if fmt == "ppc64_linux_rpn30" and level > 1 and e and not e & 3 and not e >> 63 \
+                and MMU_PSHIFT[(e & 0x3f) >> 2: ((e & 0x3f) >> 2) + 1] in ([12], [14]):
+            # (after masking) a huge-page directory for pages smaller than the base page:
+            # outside the layout's domain (Properties_C02: ppc64_mem_ok); make it a 16M one
+            e = (e & ~0x3f) | ((8 << 2) & ~mask)
+            if MMU_PSHIFT[(e & 0x3f) >> 2: ((e & 0x3f) >> 2) + 1] in ([12], [14]):
+                e = 0
         raw = e | (rng.getrandbits(width) & mask)
         if width == 32 and rng.random() < 0.1:
             raw |= rng.getrandbits(32) << 32          # junk beyond the PTE width in the cell
